@@ -311,7 +311,7 @@ def monotone_and_atan2(R, h, hk, oi, kstub_factory, PIDIV2, kp, dp):
     for xc in (1, -1, 2, -2, 3, -3, 7, -7):
         cc = R.call(hs, "atan2", [yi, z3.IntVal(xc)], opts=E.Opts(int_mode=True, stubs={KSYM: kstub2}))
         Dc = z3.And(yi > -LIM, yi < LIM, absy * 65536 >= abs(xc) * (1 << 47))
-        R.verify("atan2/steep/x=%d" % xc, [yi], [cc], Dc,
+        R.hunt("atan2/steep/x=%d" % xc, [yi], [cc], Dc,
                  z3.If(yi > 0, z3.And(cc.out >= lo2, cc.out <= hi2), z3.And(cc.out <= -lo2, cc.out >= -hi2)),
                  also_ub=True, portfolio=("z3", "cvc5"), timeout=120,
                  note="steep directions with raw x = %d: within 8e-5 of +-pi/2, right sign, no UB" % xc)
